@@ -585,7 +585,15 @@ def token_display(ctx, prog):
     # the byte-string loop, one iteration from an arbitrary remaining count
     ctx.rules_run.append('TOKEN-FMT.bytes: one iteration of the hex loop from an arbitrary countdown: "{:02x} " while more than one byte remains, "{:02x}" for the last, the loop ends with a closing quote')
     body = inst['body']
-    names = dict((n, l) for l, n in body['names'])
+    # the countdown of the hex loop: the user variable of type usize that the loop decrements (by role, not by name)
+    names = {}
+    for l, nm_ in body['names']:
+        tys = body['locals'][l].get('s', '')
+        if tys == 'usize' and 'i' not in names and any(s_['k'] == 'assign' and not s_['p'].get('p') and s_['p']['l'] == l and s_['r'].get('rv') == 'use'
+                                                       and mir.op_place(s_['r'].get('a')) is not None for b_ in body['blocks'] for s_ in b_['s']):
+            names['i'] = l
+        elif 'slice::Iter' in tys and 'iter' not in names:
+            names['iter'] = l
     if len(heads) != 1 or 'i' not in names:
         ctx.fail_closed('TOKEN-FMT.bytes', 'the hex loop of Token::Bytes (one loop, counter `i`) is no longer recognisable: heads %s' % (heads,))
         return sites
@@ -665,7 +673,18 @@ def progress(ctx, prog):
     where = mir.loc(inst['sp'])
     body = inst['body']
     heads = io.natural_loop_heads(body)
-    names = dict((n, l) for l, n in body['names'])
+    # the locals of the stack machine by type: the peekable token iterator, the control stack (a Vec of the local enum), the popped element
+    names = {}
+    for l, nm_ in body['names']:
+        tys = body['locals'][l].get('s', '')
+        if tys.startswith('std::iter::Peekable<') and 'iter' not in names:
+            names['iter'] = l
+        elif tys.startswith('std::vec::Vec<') and 'stack' not in names:
+            names['stack'] = l
+            names['_elem_ty'] = tys[len('std::vec::Vec<'):-1]
+    for l, nm_ in body['names']:
+        if body['locals'][l].get('s', '') == names.get('_elem_ty') and 'elt' not in names:
+            names['elt'] = l
     if 'stack' not in names or 'iter' not in names or 'elt' not in names or len(heads) != 2:
         ctx.fail_closed('PROGRESS', 'the display function is no longer a stack machine with locals iter/stack/elt and two nested loops (heads %s): the rule has to be re-derived' % (heads,))
         return {}
